@@ -382,7 +382,21 @@ impl AppHandlerExecute for Ics20Transfer {
             .map_err(|err| eyre_to_anyhow(err).context("failed to read upgrade info"))?
             .is_some();
 
-        let ack = match receive_tokens(&mut state, &msg.packet).await {
+        // Execute the transfer on a nested state delta so that a transfer which fails part-way
+        // (e.g. after its deposit was already recorded) leaves no writes or events behind: a packet
+        // that is acknowledged with an error must have no effect.
+        let mut nested_state = cnidarium::StateDelta::new(&mut state);
+        let result = receive_tokens(&mut nested_state, &msg.packet).await;
+        if result.is_ok() {
+            let (_, events) = nested_state.apply();
+            for event in events {
+                state.record(event);
+            }
+        } else {
+            drop(nested_state);
+        }
+
+        let ack = match result {
             Ok(()) => TokenTransferAcknowledgement::success(),
             Err(e) => {
                 tracing::warn!(
